@@ -95,8 +95,8 @@ def run(ctx):
     ctx.check("R3-keep-under-inequality", where, ok, "every `keep_content = True` sits under a sha1 comparison or the unversioned-target test")
     bn = calling(g, attr="_available_backup_name")
     v_bn = bound_names(fn, lambda t, n: "._available_backup_name(" in t)
-    adj = calling(g, attr="adjust_path", argpred=lambda c: c.args and norm(c.args[0]) in v_bn)
-    ctx.check("R3-kept-content-backed-up", where, bool(bn) and bool(adj) and g.always_before(bn, adj)[0], "kept content is moved to tt._available_backup_name(...)")
+    adj = calling(g, attr="adjust_path", argpred=lambda c: c.args and (norm(c.args[0]) in v_bn or "._available_backup_name(" in norm(c.args[0])))
+    ctx.check("R3-kept-content-backed-up", where, bool(bn) and bool(adj) and (set(adj) <= set(bn) or g.always_before(bn, adj)[0]), "kept content is moved to tt._available_backup_name(...)")
     k2_unreachable(ctx, "R3-kept-content-backed-up", where, g, {kc: False, f"not {kc}": True}, adj, "the backup rename happens only for kept content")
 
     # ---- R4 -----------------------------------------------------------------
